@@ -341,7 +341,7 @@ PROPS = {
                       checkers=["oracle"], timeout=3000)],
         allowed_axioms=[],
         trusted_base=[
-            "third harness (c05w): the runtime's write_task on its own (hook run_write_task) with scripted lane channels, the recording store, logging remotes and virtual time, so that the inactivity timeout, the votes of the other tasks, lane events and the stop message are put in every order (the stop paths of the write task); oracle only (log_ok)",
+            "third harness (c05w): the runtime's write_task on its own (hook run_write_task) with scripted lane channels, the recording store, logging remotes and virtual time, so that the inactivity timeout, the votes of the other tasks, lane events and the stop message are put in every order (the stop paths of the write task); oracle only (log_ok and provenance_ok: the store is handed, under an item's id, only what that item reported)",
             "a history is the merged log of the calls made on a recording NodePersistence (public trait) and of the frames read by the harness's remotes, in the order these happened on the single-threaded runtime; a frame is logged when the remote reads it (later than it was written), so the oracle's `persisted before published` is checked at the remote's side of the channel",
             "a crash at a point of the log is realised by starting a fresh runtime + agent on a store holding the replay of the store operations up to that point (the recording store is deterministic); the first life is ended by dropping every task (or by a clean stop) only at its end",
             "second harness (c05r): the same runtime against a scripted agent (implements the public Agent trait) whose lanes do what lanes are allowed to do - answer a sync with the current state before the change that produced it has been reported, report changes up to three requests late - so that the runtime's own ordering is tested against adversarial but legal lane behaviour",
